@@ -321,6 +321,15 @@ def concatRes {α : Type} : List (Res (List α)) → Res (List α)
       | .error e => .error e
       | .ok ys => .ok (xs ++ ys)
 
+/-- sequencing of two write-op results (key then value of a map entry). -/
+def seqOps (a b : Res (List WriteOp)) : Res (List WriteOp) :=
+  match a with
+  | .error er => .error er
+  | .ok x =>
+    match b with
+    | .error er => .error er
+    | .ok y => .ok (x ++ y)
+
 /-- the field loop of a generated `Encode`. -/
 def encodeFields (en : Ty → GVal → Res (List WriteOp)) : List Field → List GVal → Res (List WriteOp)
   | f :: fs, g :: gs =>
@@ -351,6 +360,9 @@ def encodeS (env : Env) : Nat → Ty → GVal → Res (List WriteOp)
     | .string, .str bs => .ok [.binary bs]
     | .binary, .bin bs => .ok [.binary bs]
     | .list e, .nil => .ok [.listBegin e.code 0, .listEnd]
+    | .set e, .nil => .ok [.setBegin e.code 0, .setEnd]
+    | .sset e, .nil => .ok [.setBegin e.code 0, .setEnd]
+    | .map k v, .nil => .ok [.mapBegin k.code v.code 0, .mapEnd]
     | .list e, .list xs =>
       match concatRes (xs.map fun x => if elemNilBad e x then .error .bad else encodeS env fuel e x) with
       | .ok ops => .ok (.listBegin e.code xs.length :: (ops ++ [.listEnd]))
@@ -365,12 +377,8 @@ def encodeS (env : Env) : Nat → Ty → GVal → Res (List WriteOp)
       | .error er => .error er
     | .map k v, .map _ kvs =>
       match concatRes (kvs.map fun kv =>
-          match (if elemNilBad k kv.1 then .error .bad else encodeS env fuel k kv.1) with
-          | .error er => .error er
-          | .ok a =>
-            match (if elemNilBad v kv.2 then .error .bad else encodeS env fuel v kv.2) with
-            | .error er => .error er
-            | .ok b => .ok (a ++ b)) with
+          seqOps (if elemNilBad k kv.1 then .error .bad else encodeS env fuel k kv.1)
+                 (if elemNilBad v kv.2 then .error .bad else encodeS env fuel v kv.2)) with
       | .ok ops => .ok (.mapBegin k.code v.code kvs.length :: (ops ++ [.mapEnd]))
       | .error er => .error er
     | .struct n, .struct gs =>
@@ -381,7 +389,7 @@ def encodeS (env : Env) : Nat → Ty → GVal → Res (List WriteOp)
         | .error er => .error er
         | .ok ops =>
           -- the arity rule counts non-nil fields (after the fields were written)
-          if arityOk sd.kind (if sd.kind.arity.isSome then countSet gs else 0)
+          if arityOk sd.kind (countSet (gs.take sd.fields.length))
           then .ok (.structBegin :: (ops ++ [.structEnd])) else .error .bad
     | _, _ => .error .bad
 
